@@ -49,10 +49,10 @@ Definition be64 (z : Z) : bytes :=
 
 (* ------------------------------------------------------------------ batches *)
 Record batch := mkBatch {
-  b_base : Z;        (* assigned base offset (patched into the bytes) *)
+  b_base : Z;        (* assigned base offset *)
   b_lod : Z;         (* header lastOffsetDelta (int32) *)
   b_count : Z;       (* header record count (int32) *)
-  b_bytes : bytes    (* record-set bytes as stored: first 8 bytes = be64 base *)
+  b_raw : bytes      (* record-set bytes as sent by the producer *)
 }.
 
 Definition hdr_min : Z := 61.
@@ -64,13 +64,17 @@ Definition parse_hdr (raw : bytes) : option (Z * Z) :=
        if lod <? 0 then None            (* fix C02: negative lastOffsetDelta rejected *)
        else Some (lod, be_i32 raw 57).
 
+(* PatchRecordBatchBaseOffset: the first 8 bytes become the assigned base offset *)
 Definition patch (base : Z) (raw : bytes) : bytes := be64 base ++ skipn 8 raw.
+
+(* the bytes held in the buffer and written to the segment body *)
+Definition b_bytes (b : batch) : bytes := patch (b_base b) (b_raw b).
 
 Definition b_last (b : batch) : Z := b_base b + b_lod b.
 
 Definition batch_eqb (a b : batch) : bool :=
   (b_base a =? b_base b) && (b_lod a =? b_lod b) && (b_count a =? b_count b) &&
-  bytes_eqb (b_bytes a) (b_bytes b).
+  bytes_eqb (b_raw a) (b_raw b).
 
 (* ------------------------------------------------------------------ config, buffer *)
 Record cfg := mkCfg {
@@ -194,22 +198,26 @@ Definition up_of (ok : bool) : upst := if ok then UOk else UFail.
    (S3 returns what was put: an index object present always parses.) *)
 Inductive restored := RErr | RNone | RLast (last : Z).
 
-Fixpoint restore_scan (next : Z) (idx : smap) (segs : smap) (best : option (Z * Z)) : option (option (Z * Z)) :=
-  match segs with
+Fixpoint restore_scan (next : Z) (seg idx : smap) (keys : list Z) (best : option (Z * Z)) : option (option (Z * Z)) :=
+  match keys with
   | [] => Some best
-  | (k, bs) :: r =>
-      if has k idx then
-        let best' := match best with
-                     | Some (k0, _) => if k0 <? k then Some (k, last_off bs) else best
-                     | None => Some (k, last_off bs)
-                     end in
-        restore_scan next idx r best'
-      else if next <=? k then restore_scan next idx r best
-      else None
+  | k :: r =>
+      match lookup k seg with                 (* footer of the listed object, fetched by key *)
+      | None => restore_scan next seg idx r best
+      | Some bs =>
+          if has k idx then
+            let best' := match best with
+                         | Some (k0, _) => if k0 <? k then Some (k, last_off bs) else best
+                         | None => Some (k, last_off bs)
+                         end in
+            restore_scan next seg idx r best'
+          else if next <=? k then restore_scan next seg idx r best
+          else None
+      end
   end.
 
 Definition restore (next : Z) (seg idx : smap) : restored :=
-  match restore_scan next idx seg None with
+  match restore_scan next seg idx (map fst seg) None with
   | None => RErr
   | Some None => RNone
   | Some (Some (_, l)) => RLast l
@@ -224,7 +232,7 @@ Definition step (s : state) (e : event) : option state :=
           match parse_hdr raw with
           | None => Some s                          (* error code, nothing appended *)
           | Some (lod, cnt) =>
-              let b := mkBatch (s_next s) lod cnt (patch (s_next s) raw) in
+              let b := mkBatch (s_next s) lod cnt raw in
               let next' := s_next s + lod + 1 in
               let buf' := s_buf s ++ [b] in
               if should_flush (s_cfg s) buf' && (match s_owner s with None => true | Some _ => false end)
